@@ -32,6 +32,7 @@ void mv_idle_cancel(struct mv_idle_cell* cell);
 extern void (*mv_on_deadlock)(const char* dump);
 // statistics of the current execution
 uint64_t mv_sched_points(void);
+uint64_t mv_time_jumps(void);           // number of times the clock advanced because no thread could run (quiescent states reached)
 #ifdef __cplusplus
 }
 #endif
